@@ -54,7 +54,12 @@ func BuildScratch(jobs []GenJob, race bool) (*Scratch, error) {
 			os.WriteFile(filepath.Join(dir, "driver", e.Name()), bs, 0o644)
 		}
 	}
+	ids := map[string]bool{}
 	for i := range jobs {
+		if ids[jobs[i].ID] {
+			return nil, fmt.Errorf("scratch: package %s requested twice", jobs[i].ID)
+		}
+		ids[jobs[i].ID] = true
 		jobs[i].OutDir = filepath.Join(dir, jobs[i].ID)
 		jobs[i].Package = jobs[i].ID
 		jobs[i].Check = true
